@@ -5,7 +5,7 @@ from ..engines import solver
 from ..refmodel import RefModel
 
 PROP = "C18"
-BUDGET = {"quick": 320, "thorough": 6000}
+BUDGET = {"quick": 480, "thorough": 8000}
 ALARM_S = 600
 RULE = ("catalogue models x generating parameters x noise-free or perturbed data x loss class (all five for the box and "
         "descent clauses; Square and Normal on noise-free data for the 'started at the truth' clause) x box bounds x start "
@@ -48,7 +48,17 @@ def generate(seed, tier):
         lb = [box[i][0] for i in bidx]
         ub = [box[i][1] for i in bidx]
         if at_truth:
-            if d.get("target_param") is not None:
+            if rng.random() < 0.3 and ref.p >= 2:
+                # every parameter is targeted, in an order that is not the model's
+                perm = list(ref.param_names)
+                while perm == list(ref.param_names):
+                    rng.shuffle(perm)
+                d["target_param"] = perm
+                names, bidx = perm, [ref.param_names.index(nm) for nm in perm]
+                lb = [box[i][0] for i in bidx]
+                ub = [box[i][1] for i in bidx]
+                d["theta0"] = [solver.rand_in_box(rng, box[i]) for i in bidx]
+            elif d.get("target_param") is not None:
                 d.pop("target_param")
                 names, bidx = ref.param_names, list(range(ref.p))
                 lb = [box[i][0] for i in bidx]
@@ -93,7 +103,8 @@ def generate(seed, tier):
             ops.append(solver.gen_owner_op(rng, ref, d, box, x0, t0, min(tmax, 10.0)))
             batch = "fault_injecting"
         ops.append({"op": "fit", "id": "L1", "start": start, "lb": lb, "ub": ub, "at_truth": at_truth,
-                    "truth": [theta[i] for i in bidx], "plain_output": rng.random() < 0.5})
+                    "truth": [theta[i] for i in bidx], "plain_output": rng.random() < 0.5,
+                    "bounds_as": rng.choice(["array", "array", "list", "int_where_whole", "tuple"])})
         return {"engine": "solver", "problem": name, "model": model, "theta": theta, "x0": x0, "t0": t0, "env": env,
                 "ops": ops, "batch": batch, "box": box}
     raise core.HarnessError("no C18 case")
